@@ -790,9 +790,9 @@ fetch_scanline_yuy2 (bits_image_t   *image,
 	int16_t y, u, v;
 	int32_t r, g, b;
 	
-	y = ((uint8_t *) bits)[(x + i) << 1] - 16;
-	u = ((uint8_t *) bits)[(((x + i) << 1) & - 4) + 1] - 128;
-	v = ((uint8_t *) bits)[(((x + i) << 1) & - 4) + 3] - 128;
+	y = READ (image, (uint8_t *) bits + ((x + i) << 1)) - 16;
+	u = READ (image, (uint8_t *) bits + ((((x + i) << 1) & - 4) + 1)) - 128;
+	v = READ (image, (uint8_t *) bits + ((((x + i) << 1) & - 4) + 3)) - 128;
 	
 	/* R = 1.164(Y - 16) + 1.596(V - 128) */
 	r = 0x012b27 * y + 0x019a2e * v;
@@ -827,9 +827,9 @@ fetch_scanline_yv12 (bits_image_t   *image,
 	int16_t y, u, v;
 	int32_t r, g, b;
 
-	y = y_line[x + i] - 16;
-	u = u_line[(x + i) >> 1] - 128;
-	v = v_line[(x + i) >> 1] - 128;
+	y = READ (image, y_line + (x + i)) - 16;
+	u = READ (image, u_line + ((x + i) >> 1)) - 128;
+	v = READ (image, v_line + ((x + i) >> 1)) - 128;
 
 	/* R = 1.164(Y - 16) + 1.596(V - 128) */
 	r = 0x012b27 * y + 0x019a2e * v;
@@ -991,9 +991,9 @@ fetch_pixel_yuy2 (bits_image_t *image,
     int16_t y, u, v;
     int32_t r, g, b;
     
-    y = ((uint8_t *) bits)[offset << 1] - 16;
-    u = ((uint8_t *) bits)[((offset << 1) & - 4) + 1] - 128;
-    v = ((uint8_t *) bits)[((offset << 1) & - 4) + 3] - 128;
+    y = READ (image, (uint8_t *) bits + (offset << 1)) - 16;
+    u = READ (image, (uint8_t *) bits + (((offset << 1) & - 4) + 1)) - 128;
+    v = READ (image, (uint8_t *) bits + (((offset << 1) & - 4) + 3)) - 128;
     
     /* R = 1.164(Y - 16) + 1.596(V - 128) */
     r = 0x012b27 * y + 0x019a2e * v;
@@ -1016,9 +1016,9 @@ fetch_pixel_yv12 (bits_image_t *image,
 		  int           line)
 {
     YV12_SETUP (image);
-    int16_t y = YV12_Y (line)[offset] - 16;
-    int16_t u = YV12_U (line)[offset >> 1] - 128;
-    int16_t v = YV12_V (line)[offset >> 1] - 128;
+    int16_t y = READ (image, YV12_Y (line) + offset) - 16;
+    int16_t u = READ (image, YV12_U (line) + (offset >> 1)) - 128;
+    int16_t v = READ (image, YV12_V (line) + (offset >> 1)) - 128;
     int32_t r, g, b;
     
     /* R = 1.164(Y - 16) + 1.596(V - 128) */
